@@ -36,7 +36,7 @@ def final_model(sc):
                 results = by_patch.get(id(sc.mod_patches[mi]), [])
                 eng.check(len(results) == 1, "patch of modification %d was assembled %d times, expected once" % (mi, len(results)))
                 data = results[0].text_section.data
-                items = L.patch_items(md["patch"], mi, data, bid, func, sc.spec.get("isa", "x64"))
+                items = L.patch_items(md["patch"], md.get("uid", mi), data, bid, func, sc.spec.get("isa", "x64"))
             ls.insert(bid, md["at"], items)
             if md["op"] == "replace":
                 ls.delete(bid, md["at"], md["to"])
@@ -1244,4 +1244,94 @@ def make_check_C09(tier):
         "registration order) so that pending requests keep their block and offset; the result is compared with the batch "
         "result up to UUIDs and temporary-label suffixes",
         "cache monitors wrap rewriting.insert/rewriting.delete (module attributes; no repository hook needed)"]
+    return chk
+
+
+# ---------------------------------------------------------------------------
+# C11 (registration-order clause): the result does not depend on the order in which modifications that
+# target different locations were registered
+# ---------------------------------------------------------------------------
+def legal_permutations(mods):
+    """Permutations of the modification list that keep the relative order of requests at the same location."""
+    import itertools
+    out = []
+    idx = list(range(len(mods)))
+    for perm in itertools.permutations(idx):
+        if list(perm) == idx:
+            continue
+        ok = True
+        for a in range(len(perm)):
+            for b in range(a + 1, len(perm)):
+                i, j = perm[a], perm[b]
+                same = mods[i]["blk"] == mods[j]["blk"] and (
+                    mods[i]["at"] == mods[j]["at"] or _touch(mods[i], mods[j]))
+                if same and i > j:
+                    ok = False
+        if ok:
+            out.append(perm)
+    return out
+
+
+def _touch(m1, m2):
+    """Requests whose ranges share an end point are 'the same location' for ordering purposes (the library orders
+    them by registration id)."""
+    def rng(m):
+        return (m["at"], m.get("to", m["at"]))
+    a, b = rng(m1), rng(m2)
+    return a[0] in b or a[1] in b
+
+
+def h_reorder(eng, spec, perm):
+    eng.reuse_vars = True
+    a = srh.Scenario(eng, spec)
+    a.register()
+    try:
+        a.apply()
+    except AssertionError as ex:
+        if "modifications overlap" in str(ex) or known_crash(spec, ex):
+            raise core.Abort()
+        raise
+    spec_b = dict(spec, mods=[dict(spec["mods"][i], uid=i) for i in perm])
+    b = srh.Scenario(eng, spec_b)
+    b.register()
+    try:
+        b.apply()
+    except AssertionError as ex:
+        if "modifications overlap" in str(ex):
+            eng.fail("C11 a registration order that only swaps requests at different locations is rejected as overlapping")
+        raise
+    compare_snapshots(eng, snapshot(a, True), snapshot(b, True), "C11 registration order %s:" % (list(perm),))
+
+
+def make_check_C11(tier):
+    from harness import rewrite_shapes
+    chk = run.Check("C11", tier)
+    chk.install_shims = install
+    chk.classify_exception = classify
+    extra = []
+    for mods in ([rewrite_shapes.ins("b0", 1, "jcc_tmp"), rewrite_shapes.ins("d0", 1, "jcc_tmp")],
+                 [rewrite_shapes.ins("b0", 1, "jcc_tmp"), rewrite_shapes.ins("b2", 1, "selfloop")],
+                 [rewrite_shapes.ins("b0", 0, "jcc_tmp"), rewrite_shapes.ins("b2", 0, "jcc_tmp"), rewrite_shapes.ins("d1", 0, "selfloop")]):
+        import copy as _c
+        spec = rewrite_shapes.mixed_layout()
+        spec["mods"] = _c.deepcopy(mods)
+        extra.append(("mixed/%s" % rewrite_shapes.mods_name(mods), spec))
+    for mods in ([rewrite_shapes.ins("b0", 1, "jcc_tmp"), rewrite_shapes.ins("b1", 1, "jcc_tmp")],
+                 [rewrite_shapes.ins("b0", 0, "selfloop"), rewrite_shapes.ins("b1", 0, "jcc_tmp"), rewrite_shapes.ins("b2", 0, "jcc_tmp")],
+                 [rewrite_shapes.ins("b1", 1, "jcc_tmp"), rewrite_shapes.ins("b1", 2, "selfloop")]):
+        import copy as _c
+        spec = rewrite_shapes.text_layout("jcc:s0")
+        spec["mods"] = _c.deepcopy(mods)
+        extra.append(("text/jcc:s0/%s" % rewrite_shapes.mods_name(mods), spec))
+    for sid, spec in rewrite_shapes.shapes(tier) + rewrite_shapes.cfi_shapes(tier) + extra:
+        if crash_pattern(spec) or len(spec.get("mods", [])) < 2:
+            continue
+        for perm in legal_permutations(spec["mods"]):
+            chk.add("%s/perm%s" % (sid, "".join(map(str, perm))), h_reorder, params=dict(spec=spec, perm=perm), timeout=900)
+    chk.bounds = dict(BOUNDS)
+    chk.bounds["registration orders"] = "every permutation of the 2-3 requests that keeps the relative order of requests at the same location"
+    chk.assumptions = list(ASSUME) + [
+        "NOT decided here (outside the claim): independence from PYTHONHASHSEED / set iteration order / UUID draws - the "
+        "engine itself fixes UUIDs and hashes nodes by UUID to make re-execution deterministic",
+        "temporary-label names are compared exactly (suffixes follow application order, not registration order)"]
     return chk
